@@ -131,6 +131,30 @@ def r2(ctx, R, g, rx):
         R.violation("C06.R2", g.short, "case-insensitive match", loc(g, rx.node), "the occurrence pattern is case-sensitive: `N` is not found as an occurrence of `n`")
 
 
+def _record(ctx, g, e):
+    """the three components of a hit record: a 3-element display, or a call of a 3-field
+    NamedTuple class of the package"""
+    if isinstance(e, (ast.List, ast.Tuple)) and len(e.elts) == 3:
+        return list(e.elts)
+    if isinstance(e, ast.Call) and isinstance(e.func, ast.Name) and len(e.args) == 3 and not e.keywords and not any(isinstance(a, ast.Starred) for a in e.args):
+        cq = ctx.m.resolve_class_name(g.rel, e.func.id)
+        if cq and any("NamedTuple" in b or b.endswith("tuple") for b in ctx.m.classes[cq].ext_bases):
+            return list(e.args)
+    return None
+
+
+def _record_fields(ctx):
+    """{field name: index} of 3-field NamedTuple classes (consumers may read hit.line / hit.start / hit.end)"""
+    out = {}
+    for c in ctx.m.classes.values():
+        if any("NamedTuple" in b for b in c.ext_bases):
+            names = [st.target.id for st in c.node.body if isinstance(st, ast.AnnAssign) and isinstance(st.target, ast.Name)]
+            if len(names) == 3:
+                for i, n in enumerate(names):
+                    out.setdefault(n, i)
+    return out
+
+
 def r3(ctx, R, g, rx, loop, k):
     R.rule("C06.R3", "a hit's range is (loop line index, start, end) of the name group; the hit is re-resolved at a column inside the identifier", floor=2, confirmed=2)
     mv, uses = group_uses(ctx, g, loop)
@@ -149,11 +173,14 @@ def r3(ctx, R, g, rx, loop, k):
         outer = ctx.m.parent.get(outer)
     if line_var is None:
         raise AnalysisError(f"{g.short}: line loop `for i, line in enumerate(<file>.contents_split)` not found")
-    appends = [c for c in calls_in(loop) if isinstance(c.func, ast.Attribute) and c.func.attr == "append" and c.args and isinstance(c.args[0], (ast.List, ast.Tuple)) and len(c.args[0].elts) == 3]
+    record = lambda e: _record(ctx, g, e)
+
+    appends = [c for c in calls_in(loop) if isinstance(c.func, ast.Attribute) and c.func.attr == "append" and c.args and record(c.args[0]) is not None]
     if not appends:
-        raise AnalysisError(f"{g.short}: no [line, start, end] record appended in the match loop")
+        R.undecided("C06.R3", g.short, "hit record", loc(g, loop), "no [line, start, end] record appended in the match loop (shape not recognised)")
+        return line_var
     for c in appends:
-        ln, st, en = c.args[0].elts
+        ln, st, en = record(c.args[0])
         kk = key(g, ctx.m.enclosing_stmt(c))[:80]
         prob = []
         if not (isinstance(ln, ast.Name) and ln.id == line_var[0]):
@@ -264,7 +291,7 @@ def r4(ctx, R, g, call, loop, line_var):
             else:
                 R.ok("C06.R4", g.short, kk, loc(g, cmp_), "pre-filter compares like with like")
     # (d) every record is appended under a non-None resolution and the match flag
-    appends = [c for c in calls_in(loop) if isinstance(c.func, ast.Attribute) and c.func.attr == "append" and c.args and isinstance(c.args[0], (ast.List, ast.Tuple)) and len(c.args[0].elts) == 3]
+    appends = [c for c in calls_in(loop) if isinstance(c.func, ast.Attribute) and c.func.attr == "append" and c.args and _record(ctx, g, c.args[0]) is not None]
     flag = None
     for c in appends:
         fa_ = F.at(c) or set()
@@ -391,6 +418,9 @@ def r5(ctx, R, g, hs):
             if isinstance(tgt, ast.Name):
                 rv = tgt.id
                 want = [f"{rv}[0]", f"{rv}[1]", f"{rv}[0]", f"{rv}[2]"]
+                # fields of a NamedTuple record read by name
+                fmap = _record_fields(ctx)
+                txts = [f"{rv}[{fmap[a.attr]}]" if isinstance(a, ast.Attribute) and isinstance(a.value, ast.Name) and a.value.id == rv and a.attr in fmap else t for a, t in zip(rng, txts)]
             elif isinstance(tgt, (ast.Tuple, ast.List)) and len(tgt.elts) == 3 and all(isinstance(x, ast.Name) for x in tgt.elts):
                 a_, b_, c_ = (x.id for x in tgt.elts)
                 want = [a_, b_, a_, c_]
